@@ -1245,6 +1245,7 @@ async fn control_self_sees_more(world: &World, acc: &mut Acc) {
 
 pub fn run(args: Args) {
     let args = crate::sim::args_from_replay(args);
+    crate::sim::watchdog(&args, if args.tier == kvcore::Tier::Thorough { 2700 } else { 600 });
     let mut run = Run::new(
         args.clone(),
         "exploration",
